@@ -211,7 +211,7 @@ func c20Schema() string {
 
 // C20: option values are interpreted like protoc.
 func runC20(h *hx.H) {
-	h.Rule = "inputs: a custom option of each of 17 types (15 scalar types, an enum, a message) on field and on message level x 39 literals (integer boundaries of 32 and 64 bits in decimal, hex and octal, -0, floats incl. float32 overflow and underflow, inf/nan with and without sign, booleans, enum value names, unknown identifiers, strings incl. adjacent literals and invalid UTF-8, aggregates) x four statement shapes (`(ext) = L`; path `(msg_ext).field = L`; aggregate `(msg_ext) = { field: L }`; aggregate with list `ri: [L, L]`), plus all ordered pairs of statements on one option (set twice, path then aggregate, repeated twice, two paths into one message) for a subset; oracle: reference model of protoc's OptionInterpreter::SetOptionValue and of the certain part of the text-format rules (DESIGN Appendix D): accept/reject and the stored value read back from the compiled options message; on success no uninterpreted_option remains; non-trivial = statement the reference rejects, or a value that needed a conversion"
+	h.Rule = "inputs: a custom option of each of 17 types (15 scalar types, an enum, a message) on field and on message level x 39 literals (integer boundaries of 32 and 64 bits in decimal, hex and octal, -0, floats incl. float32 overflow and underflow, inf/nan with and without sign, booleans, enum value names, unknown identifiers, strings incl. adjacent literals and invalid UTF-8, aggregates) x four statement shapes on field and message level (`(ext) = L`; path `(msg_ext).field = L`; aggregate `(msg_ext) = { field: L }`; aggregate with list `ri: [L, L]`), plus, for each of the nine element kinds, a standard option, a custom scalar and a path into a custom message option in all six orders (for extension ranges with one, two and three ranges sharing the option list), plus all ordered pairs of statements on one option (set twice, path then aggregate, repeated twice, two paths into one message) for a subset; oracle: reference model of protoc's OptionInterpreter::SetOptionValue and of the certain part of the text-format rules (DESIGN Appendix D): accept/reject and the stored value read back from the compiled options message; on success no uninterpreted_option remains; non-trivial = statement the reference rejects, or a value that needed a conversion"
 	h.Assumptions = append(h.Assumptions, "protoc itself is not available: the oracle is a reference model of its option interpreter; text-format corner cases the model is not sure about (identifier forms of floats and booleans in aggregates, invalid UTF-8) are UNKNOWN and never alarm")
 	schema := c20Schema()
 	for ti, t := range optTypes {
@@ -224,6 +224,21 @@ func runC20(h *hx.H) {
 					}
 					checkOption(h, idx, schema, ti, t, li, l, shape, level)
 				}
+			}
+		}
+	}
+	// every element kind: a standard option, a custom scalar and a custom message path, in every order
+	for ki := range kindSpecs {
+		for perm := 0; perm < 6; perm++ {
+			for n := 1; n <= 3; n++ {
+				if kindSpecs[ki].name != "extension-range" && n > 1 {
+					continue
+				}
+				idx, run := h.NextN()
+				if !run {
+					continue
+				}
+				checkKind(h, idx, ki, perm, n)
 			}
 		}
 	}
@@ -565,4 +580,147 @@ func pairClass(a, b string) string {
 		return "builtin"
 	}
 	return k(a) + "+" + k(b)
+}
+
+type kindSpec struct {
+	name, target, std string // std: a standard option statement for this kind ("" if none)
+	prefix            string
+}
+
+var kindSpecs = []kindSpec{
+	{"file", "FileOptions", "java_package = \"x\"", "kf"}, {"message", "MessageOptions", "deprecated = true", "km"},
+	{"field", "FieldOptions", "deprecated = true", "kd"}, {"oneof", "OneofOptions", "", "ko"},
+	{"extension-range", "ExtensionRangeOptions", "verification = UNVERIFIED", "kr"}, {"enum", "EnumOptions", "deprecated = true", "ke"},
+	{"enum-value", "EnumValueOptions", "deprecated = true", "kv"}, {"service", "ServiceOptions", "deprecated = true", "ks"},
+	{"method", "MethodOptions", "deprecated = true", "kt"},
+}
+
+func kindSchema() string {
+	var b strings.Builder
+	b.WriteString("syntax = \"proto2\";\npackage o;\nimport \"google/protobuf/descriptor.proto\";\nmessage KM { optional int32 i32 = 1; optional string s = 2; }\n")
+	for _, k := range kindSpecs {
+		fmt.Fprintf(&b, "extend google.protobuf.%s { optional int32 %s_i = 50001; optional KM %s_m = 50002; optional int32 %s_j = 50003; }\n", k.target, k.prefix, k.prefix, k.prefix)
+	}
+	return b.String()
+}
+
+var perms3 = [6][3]int{{0, 1, 2}, {0, 2, 1}, {1, 0, 2}, {1, 2, 0}, {2, 0, 1}, {2, 1, 0}}
+
+// checkKind: one element of the given kind carries a standard option, a custom scalar and a path
+// into a custom message option, in the given order (n extension ranges share the statement list).
+func checkKind(h *hx.H, idx int64, ki, perm, n int) {
+	h.Eval(1)
+	h.State(1)
+	h.Trans(1)
+	k := kindSpecs[ki]
+	three := []string{k.std, fmt.Sprintf("(o.%s_i) = 7", k.prefix), fmt.Sprintf("(o.%s_m).i32 = 1", k.prefix)}
+	if k.std == "" {
+		three[0] = fmt.Sprintf("(o.%s_j) = 9", k.prefix)
+	}
+	var stmts []string
+	for _, i := range perms3[perm] {
+		stmts = append(stmts, three[i])
+	}
+	compactList := "[" + strings.Join(stmts, ", ") + "]"
+	var optLines strings.Builder
+	for _, s := range stmts {
+		optLines.WriteString("option " + s + "; ")
+	}
+	ranges := []string{"100 to 199", "300 to 399", "500"}[:n]
+	body := map[string]string{
+		"file":            "%OPTS% message M { optional int32 f = 1; }",
+		"message":         "message M { %OPTS% optional int32 f = 1; }",
+		"field":           "message M { optional int32 f = 1 %COMPACT%; }",
+		"oneof":           "message M { oneof o { %OPTS% int32 f = 1; } }",
+		"extension-range": "message M { extensions " + strings.Join(ranges, ", ") + " %COMPACT%; }",
+		"enum":            "enum E { %OPTS% V = 0; }",
+		"enum-value":      "enum E { V = 0 %COMPACT%; }",
+		"service":         "message M {} service S { %OPTS% rpc R(M) returns (M); }",
+		"method":          "message M {} service S { rpc R(M) returns (M) { %OPTS% } }",
+	}[k.name]
+	src := "syntax = \"proto2\";\npackage q;\nimport \"kinds.proto\";\n" + strings.NewReplacer("%OPTS%", optLines.String(), "%COMPACT%", compactList).Replace(body) + "\n"
+	desc := fmt.Sprintf("%s with options %v (%d range(s))", k.name, stmts, n)
+	fail := func(sig, format string, args ...any) {
+		h.Violate(sig, hx.CaseID(idx), desc+": "+fmt.Sprintf(format, args...), map[string]any{"source": src})
+	}
+	res := compile(fileSet{"kinds.proto": kindSchema(), "main.proto": src}, protocompile.SourceInfoNone, "main.proto")
+	h.Trace(1)
+	h.NonTrivial++
+	if res.err != nil {
+		fail("element-options-rejected:"+k.name, "the compiler rejects: %s", first(res.errs))
+		return
+	}
+	fd := protodescProto(res.files[0])
+	var raws []proto.Message
+	switch k.name {
+	case "file":
+		raws = append(raws, fd.Options)
+	case "message":
+		raws = append(raws, fd.MessageType[0].Options)
+	case "field":
+		raws = append(raws, fd.MessageType[0].Field[0].Options)
+	case "oneof":
+		raws = append(raws, fd.MessageType[0].OneofDecl[0].Options)
+	case "extension-range":
+		for _, r := range fd.MessageType[0].ExtensionRange {
+			raws = append(raws, r.Options)
+		}
+	case "enum":
+		raws = append(raws, fd.EnumType[0].Options)
+	case "enum-value":
+		raws = append(raws, fd.EnumType[0].Value[0].Options)
+	case "service":
+		raws = append(raws, fd.Service[0].Options)
+	case "method":
+		raws = append(raws, fd.Service[0].Method[0].Options)
+	}
+	if len(raws) != n {
+		fail("element-options-count:"+k.name, "%d elements, expected %d", len(raws), n)
+		return
+	}
+	resolver := linker.ResolverFromFile(res.files[0])
+	for ri, raw := range raws {
+		if raw == nil || !raw.ProtoReflect().IsValid() {
+			fail("element-options-missing:"+k.name, "element %d has no options", ri)
+			return
+		}
+		data, _ := proto.Marshal(raw)
+		dm := dynamicpb.NewMessage(raw.ProtoReflect().Descriptor())
+		if err := (proto.UnmarshalOptions{Resolver: resolver}).Unmarshal(data, dm); err != nil {
+			fail("element-options-decode:"+k.name, "element %d: %v", ri, err)
+			return
+		}
+		if f := dm.Descriptor().Fields().ByName("uninterpreted_option"); f != nil && dm.Get(f).List().Len() != 0 {
+			fail("uninterpreted-option-remains", "element %d keeps %d uninterpreted options", ri, dm.Get(f).List().Len())
+			return
+		}
+		get := func(name string) (protoreflect.Value, bool) {
+			xt, err := resolver.FindExtensionByName(protoreflect.FullName(name))
+			if err != nil || !dm.Has(xt.TypeDescriptor()) {
+				return protoreflect.Value{}, false
+			}
+			return dm.Get(xt.TypeDescriptor()), true
+		}
+		if v, ok := get("o." + k.prefix + "_i"); !ok || v.Int() != 7 {
+			fail("element-option-value:"+k.name, "element %d: (o.%s_i) should be 7, is %v (set=%v)", ri, k.prefix, v, ok)
+			return
+		}
+		if v, ok := get("o." + k.prefix + "_m"); !ok || v.Message().Get(v.Message().Descriptor().Fields().ByName("i32")).Int() != 1 {
+			fail("element-option-value:"+k.name, "element %d: (o.%s_m).i32 should be 1 (set=%v)", ri, k.prefix, ok)
+			return
+		}
+		if k.std == "" {
+			if v, ok := get("o." + k.prefix + "_j"); !ok || v.Int() != 9 {
+				fail("element-option-value:"+k.name, "element %d: (o.%s_j) should be 9 (set=%v)", ri, k.prefix, ok)
+				return
+			}
+		} else {
+			stdName := protoreflect.Name(strings.TrimSpace(k.std[:strings.Index(k.std, "=")]))
+			f := dm.Descriptor().Fields().ByName(stdName)
+			if f == nil || !dm.Has(f) {
+				fail("element-option-value:"+k.name, "element %d: standard option %s is not set", ri, stdName)
+				return
+			}
+		}
+	}
 }
